@@ -173,6 +173,13 @@ func (c *Ctx) NViolations() int {
 	return len(c.violations)
 }
 
+// NReports counts every violation report, duplicates of an already recorded one included.
+func (c *Ctx) NReports() int {
+	c.mu.Lock()
+	defer c.mu.Unlock()
+	return len(c.violations) + int(c.counters["violations_duplicate"]) + int(c.counters["violations_dropped"])
+}
+
 func (c *Ctx) KnownReproduced(id string) {
 	c.mu.Lock()
 	c.known[id]++
